@@ -15,7 +15,7 @@ type Decider interface {
 // PolicyConfig describes a scheduling policy; every random policy is a
 // function of these parameters and one PRNG.
 type PolicyConfig struct {
-	Kind string `json:"kind"` // "rtb" run-to-block, "eps", "pct", "hot"
+	Kind string `json:"kind"` // "rtb" run-to-block, "eps", "pct", "hot", "park", "pre1"
 	// probability of preempting the running task at a yield
 	Eps float64 `json:"eps,omitempty"`
 	// probability of performing a network delivery although a task is runnable
@@ -35,6 +35,11 @@ type PolicyConfig struct {
 	// hot: percentage of yield sites that are hot, max hold in decisions
 	HotPct  int `json:"hot_pct,omitempty"`
 	HotHold int `json:"hot_hold,omitempty"`
+	// pre1: one long preemption per task: a task (with PreSys: only a task of
+	// the system under test, not a harness task) reaching its PreAt-th yield is
+	// set aside for HotHold decisions while the others run
+	PreAt  int  `json:"pre_at,omitempty"`
+	PreSys bool `json:"pre_sys,omitempty"`
 }
 
 type randomPolicy struct {
@@ -123,7 +128,7 @@ func (p *randomPolicy) Pick(w *World, opts []Option) (int, int) {
 		return i, p.param(opts[i])
 	}
 	if adv >= 0 && adv != 0 && c.Stall > 0 && rng.Float64() < c.Stall {
-		return adv, 0
+		return adv, rng.IntN(max(opts[adv].NParam, 1))
 	}
 	if len(tasks) > 0 {
 		if len(nets) > 0 && c.NetEarly > 0 && rng.Float64() < c.NetEarly {
@@ -157,6 +162,51 @@ func (p *randomPolicy) Pick(w *World, opts []Option) (int, int) {
 			}
 			if len(free) > 0 && free[0] != tasks[0] {
 				return free[rng.IntN(len(free))], 0
+			}
+			if len(tasks) > 1 && rng.Float64() < c.Eps {
+				return tasks[rng.IntN(len(tasks))], 0
+			}
+		case "pre1":
+			t := opts[tasks[0]].Task
+			if len(tasks) > 1 && t.Yields == c.PreAt && t.hotSeen != t.Yields+1 && !(c.PreSys && len(t.Name) > 1 && t.Name[:2] == "h:") {
+				t.hotSeen = t.Yields + 1
+				hold := c.HotHold
+				if hold <= 0 {
+					hold = 1000
+				}
+				t.holdUntil = w.Steps + 1 + hold
+			}
+			for _, i := range tasks {
+				if opts[i].Task.holdUntil <= w.Steps {
+					if i != tasks[0] {
+						return i, 0
+					}
+					break
+				}
+			}
+		case "park":
+			// delay-bounded with long delays: a task reaching a hot site may be
+			// set aside for hundreds or thousands of decisions while the others
+			// run to their next blocking point one after the other (a preempted
+			// or descheduled thread, as opposed to hot's brief reorderings)
+			t := opts[tasks[0]].Task
+			if len(tasks) > 1 && t.hotSeen != t.Yields {
+				t.hotSeen = t.Yields
+				if p.hot(t.Site) && rng.Float64() < 0.5 {
+					hold := c.HotHold
+					if hold <= 0 {
+						hold = 1000
+					}
+					t.holdUntil = w.Steps + 1 + rng.IntN(hold)
+				}
+			}
+			for _, i := range tasks {
+				if opts[i].Task.holdUntil <= w.Steps {
+					if i != tasks[0] {
+						return i, 0
+					}
+					break
+				}
 			}
 			if len(tasks) > 1 && rng.Float64() < c.Eps {
 				return tasks[rng.IntN(len(tasks))], 0
